@@ -51,6 +51,7 @@ def floors(tier):
     f['ev:sibling_order:' + p] = 3 * k
     f['ev:components:' + p] = 4 * k
   f['rigid_models_with_slide'] = 4 * k
+  f['rigid_models_approximate_inverse'] = 3 * k
   f['order_models_where_link_order_changed'] = 4 * k
   return f
 
@@ -154,6 +155,15 @@ def run(job, mon):
 
     if kind == 'rigid':
       spec = free_rooted(rng, strength='gentle' if c % 2 else 'wild')
+      fast = c % 3 == 2
+      if fast:
+        # the default approximate mass-matrix inverse (warm-started
+        # Newton-Schulz) with fast motion: the regime where a frame-dependent
+        # acceptance test in the iteration would show
+        spec['exact_inv'] = False
+        spec['timestep'] = 0.005
+        nsteps = int(rng.integers(3, 6))
+        mon.count('rigid_models_approximate_inverse')
       xml = gen.to_xml(spec)
       sys_ = phys.load(xml)
       mj = sys_.mj_model
@@ -165,9 +175,11 @@ def run(job, mon):
       g0 = np.asarray(spec['gravity'])
       for pname in phys.PIPELINES:
         fn = runner(sys_, phys.pipeline(pname), nsteps, with_gravity=True)
-        for _ in range(2):
+        for _ in range(6 if fast else 2):
           rot, tr = gen.rquat(rng), rng.uniform(-3, 3, 3)
-          q, qd = gen.rand_state(rng, mj, qscale=1.0)
+          q, qd = gen.rand_state(rng, mj, qscale=1.0,
+                                 qdscale=float(rng.choice([40., 80., 150.]))
+                                 if fast else 1.0)
           a = rng.uniform(-1, 1, mj.nu)
           q2, qd2 = q.copy(), qd.copy()
           for j in range(mj.njnt):
